@@ -61,3 +61,62 @@ def call_real(calls, timeout=600):
 def call1(module, func, *args, **kwargs):
     r = call_real([{'module': module, 'func': func, 'args': list(args), 'kwargs': kwargs}])[0]
     return r
+
+
+# ---- pyx: replay on the transliterated CURRENT source with plain floats; compiled module only when it is in sync with the source
+import re as _re
+import math as _math
+import cmath as _cmath
+_SYNC_CACHE = {}
+
+
+def compiled_in_sync(rel_pyx, span):
+    """every executable line of the slice [span] appears, at its line number, in the source comments Cython embedded in the generated .c,
+    and the .so is not older than the .c"""
+    key = (rel_pyx, span)
+    if key in _SYNC_CACHE:
+        return _SYNC_CACHE[key]
+    pyx = os.path.join(REPO, rel_pyx)
+    cfile = pyx[:-4] + '.c'
+    ok = True
+    why = ''
+    if not os.path.exists(cfile):
+        ok, why = False, 'no generated .c'
+    else:
+        import glob
+        sos = glob.glob(pyx[:-4] + '.*.so')
+        if not sos or os.path.getmtime(sos[0]) + 1 < os.path.getmtime(cfile):
+            ok, why = False, '.so missing or older than .c'
+    if ok:
+        ctext = open(cfile, errors='replace').read()
+        marks = {}
+        for m in _re.finditer(r'/\* "%s":(\d+)\n((?: \*.*\n)+?) ?\*/' % _re.escape(rel_pyx), ctext):
+            ln = int(m.group(1))
+            for l2 in m.group(2).split('\n'):
+                if l2.rstrip().endswith('# <<<<<<<<<<<<<<'):
+                    marks[ln] = l2[3:].rsplit('# <<<<<<<<<<<<<<', 1)[0].rstrip()
+        src = open(pyx).read().split('\n')
+        seen = 0
+        for ln in range(span[0], span[1] + 1):
+            if ln in marks:
+                seen += 1
+                if marks[ln].strip() != src[ln - 1].strip():
+                    ok, why = False, 'line %d differs: .c has %r, .pyx has %r' % (ln, marks[ln].strip(), src[ln - 1].strip())
+                    break
+        if ok and seen == 0:
+            ok, why = False, 'no embedded source lines for this slice'
+    _SYNC_CACHE[key] = (ok, why)
+    return ok, why
+
+
+def float_ns():
+    """namespace for executing transliterated .pyx source with ordinary python float/complex"""
+    def _pow(a, b):
+        return a ** b
+
+    def _div(a, b):
+        return a / b
+    return {'_L': lambda t: float(t.replace('_', '')), '_div': _div, '_pow': _pow, 'fabs': abs, 'isinf': _math.isinf, 'isnan': _math.isnan, 'INFINITY': float('inf'),
+            'NAN': float('nan'), 'pi': _math.pi, 'M_PI': _math.pi, 'cf_build_dblcmplx': complex, 'tgamma': _math.gamma, 'cos': _math.cos, 'sin': _math.sin, 'sqrt': _math.sqrt,
+            'exp': _math.exp, 'log': _math.log, 'atan2': _math.atan2, 'hypot': _math.hypot, 'pow': pow, 'copysign': _math.copysign, 'floor': _math.floor,
+            'cabs': abs, 'csqrt': _cmath.sqrt, 'cexp': _cmath.exp, 'fmax': max, 'fmin': min}
